@@ -35,6 +35,10 @@ class _ConvAffineFusionBase(pattern.RewriteRuleClassBase):
             return check_result.fail("Operand for Mul should be constant scalar value")
         if get_singleton_value(offset) is None:
             return check_result.fail("Operand for Add should be constant scalar value")
+        # A single-element scale/offset of higher rank than the Conv output would change the output rank
+        w_rank = len(get_const_value(w).shape)
+        if len(get_const_value(scale).shape) > w_rank or len(get_const_value(offset).shape) > w_rank:
+            return check_result.fail("Operands for Mul/Add must not out-rank the Conv output")
         return check_result
 
 
@@ -61,8 +65,8 @@ class AffineConvFusion(_ConvAffineFusionBase):
         offset: ir.Value,
         conv_out: ir.Value,
     ) -> ir.Value:
-        scale_value = scale.const_value.numpy()
-        offset_value = offset.const_value.numpy()
+        scale_value = scale.const_value.numpy().reshape(())
+        offset_value = offset.const_value.numpy().reshape(())
         w_value = w.const_value.numpy()
         b_value = b.const_value.numpy()
         scaled_w_value = op.initializer(ir.tensor(w_value * scale_value), w.name + "_scaled")
@@ -93,8 +97,8 @@ class ConvAffineFusion(_ConvAffineFusionBase):
         offset: ir.Value,
         conv_out: ir.Value,
     ) -> ir.Value:
-        scale_value = scale.const_value.numpy()
-        offset_value = offset.const_value.numpy()
+        scale_value = scale.const_value.numpy().reshape(())
+        offset_value = offset.const_value.numpy().reshape(())
         w_value = w.const_value.numpy()
         b_value = b.const_value.numpy()
         scaled_w_weight = op.initializer(ir.tensor(w_value * scale_value), w.name + "_scaled")
